@@ -356,6 +356,13 @@ func gen(r *rand.Rand, tier string) []string {
 					add(c)
 				}
 			}
+			// H3b. … in a file whose entries are larger than one read buffer: the error falls between two entries of one pass
+			// (also in the middle of LoadAmmo)
+			if bi%2 == 0 {
+				for k := 2; k <= 9; k++ {
+					add(cell{v: v, limit: b.limit, passes: b.passes, n: b.n + 1, cons: 1, cap: full + 3, rfail: k, rsticky: k%2 == 0, pad: 4200, eol: k % 4, cfail: (k / 2) % 2})
+				}
+			}
 			// H4. the open fails (grpc/json and the generic JSON provider open the file in Run)
 			add(cell{v: v, limit: b.limit, passes: b.passes, n: b.n, cons: 2, cap: full, ofail: true, cfail: bi % 2})
 		}
